@@ -490,6 +490,11 @@ class Parser:
                     "end of script reached while %s expected"
                     % "|".join(self.__expected)
                 )
+            if self.__curcommand is not None:
+                raise ParseError(
+                    "end of script reached while %s command is not terminated"
+                    % self.__curcommand.name
+                )
 
         except (ParseError, CommandError) as e:
             self.error_pos = (
